@@ -77,3 +77,8 @@ func VerifH_xaesgcm_arbitrary() {
 	a, _, prefix, ss := build()
 	verifh.CheckAEADArbitrary(a, len(prefix)+ss+12+16+2, 16)
 }
+
+func VerifH_c19_xaesgcm() {
+	a, _, _, _ := build()
+	verifh.CheckAEADNoWrite(a)
+}
